@@ -47,11 +47,17 @@ structure Mach where
   states : List StateDef := []
   deriving Repr
 
-/-- one row of the state table: the machine's state column and (a digest of) every other column -/
+/-- one row of the state table: the machine's state column, (a digest of) every other column, and the
+`tracked` column -/
 structure Row where
   st : Nat
   other : Int
+  tracked : Bool := true
   deriving DecidableEq, Repr
+
+/-- what the machine's population view (columns `[state_column]`, hence filtered by `tracked == True`)
+shows of a row: the state of a TRACKED simulant, nothing of an untracked one -/
+def Row.seen (r : Row) : Option Nat := if r.tracked then some r.st else none
 
 abbrev Table := List Row
 
@@ -177,9 +183,15 @@ def nextState (m : Mach) : Nat → Nat → List Nat → Table → Except Err Tab
           (decisions sd m.dd rows index) ((List.range sd.trans.length).zip sd.trans) tab
 
 /-- `Machine._get_state_pops`: the index split by CURRENT state, computed once from the table as it is
-before any transition. A simulant whose state is none of the machine's states is in no part. -/
+before any transition (`population_view.get(index)` drops untracked simulants). A simulant whose state is
+none of the machine's states, or that is untracked, is in no part. -/
 def statePops (m : Mach) (tab : Table) (idx : List Nat) : List (Nat × List Nat) :=
-  (List.range m.states.length).map (fun s => (s, idx.filter (fun i => (tab[i]?.map (·.st)) == some s)))
+  (List.range m.states.length).map (fun s => (s, idx.filter (fun i => (tab[i]?.bind Row.seen) == some s)))
+
+/-- `Machine.cleanup(index, event_time)`: which `state.cleanup_effect(sub_index)` calls are made -/
+def cleanupCalls (m : Mach) (tab : Table) (idx : List Nat) : Except Err (List (Nat × List Nat)) :=
+  if idx.any (fun i => decide (tab.length ≤ i)) then .error .unknownSimulant
+  else .ok ((statePops m tab idx).filter (fun p => !p.2.isEmpty))
 
 def runPops (m : Mach) (fuel : Nat) : List (Nat × List Nat) → Table → Except Err Table
   | [], tab => .ok tab
